@@ -335,7 +335,98 @@ def part_base(ctx, shard):
                         ctx.violation(f"C03|base|unit={ukey(name)}|route={alias}|dtype={dtype}|mode=alias-route-differs", {"part": "base", "unit": name, "route": alias, "dtype": dtype, "shape": shape}, str(b), str(a))
 
 
+SPELLINGS = {
+    "km": ["m", "meter", "(m)", "m**1", "1*m", "m*s/s"],
+    "percent": ["", "dimensionless", "1", "(dimensionless)", "m/m"],
+    "cm/m": ["", "dimensionless", "m/m"],
+    "km/pc": ["", "dimensionless"],
+    "hr": ["s", "second", "1/Hz", "s**1"],
+}
+
+
+def part_spellings(ctx, shard):
+    """every spelling of one target unit (name, alias, parenthesised, trivial power, the empty string for dimensionless)
+    x every route gives the same numbers"""
+    from unyt.unit_object import Unit
+
+    world.reset_world()
+    for src in shard:
+        for dtype, shape in (("float64", "array"), ("float64", "scalar"), ("float32", "array")):
+            x = mk(vals_for(ctx.seed, 1), dtype, src, shape)
+            ref = None
+            for sp in SPELLINGS[src]:
+                targets = [("str", sp)]
+                try:
+                    targets.append(("Unit", Unit(sp)))
+                except Exception:  # noqa: BLE001
+                    pass
+                for tkind, tgt in targets:
+                    for rname, f in (
+                        ("to", lambda: x.to(tgt)),
+                        ("in_units", lambda: x.in_units(tgt)),
+                        ("to_value", lambda: x.to_value(tgt)),
+                        ("convert_to_units", lambda: (lambda y: (y.convert_to_units(tgt), y)[1])(x.copy())),
+                        ("to_value-keyword", lambda: x.to_value(units=tgt)),
+                    ):
+                        ctx.count("evaluations")
+                        r = attempt(f)
+                        case = {"part": "spellings", "src": src, "spelling": sp, "target_kind": tkind, "route": rname, "dtype": dtype, "shape": shape}
+                        base = f"C03|spelling|src={src}|target={sp or 'empty-string'}|kind={tkind}|route={rname}"
+                        ctx.outcome(("spelling", src, sp, tkind, rname, r[0]))
+                        if r[0] != "ok":
+                            ctx.violation(base + f"|mode=refused:{r[1] if len(r) > 1 else ''}", case, "converted numbers", str(r[1:])[:100])
+                            continue
+                        ctx.decided(("spelling", src, sp, tkind, rname, dtype, shape))
+                        vals = np.asarray(r[1].d if isinstance(r[1], unyt_array) else r[1], dtype=float)
+                        if ref is None:
+                            ref = (vals, sp, rname)
+                            # anchor: stored numbers x ratio of scales
+                            want = np.asarray(x.d, dtype=float) * float(x.units.base_value) / float(Unit(sp).base_value)
+                            if np.any(np.abs(vals - want) > 64 * EPS[dtype] * np.abs(want)):
+                                ctx.violation(base + "|mode=wrong-numbers", case, want.tolist(), vals.tolist())
+                        elif vals.shape != ref[0].shape or np.any(np.abs(vals - ref[0]) > 64 * EPS[dtype] * np.abs(ref[0])):
+                            ctx.violation(base + "|mode=spelling-or-route-changes-the-numbers", case, {"via": ref[1:], "numbers": ref[0].tolist()}, vals.tolist())
+
+
+def part_registry_default_system(ctx, shard):
+    """a registry created with a non-default unit system: the argument-free routes (in_base(), convert_to_base(),
+    Unit.get_base_equivalent()) answer in THAT system, exactly like the routes that name it"""
+    from unyt.unit_registry import UnitRegistry
+
+    world.reset_world()
+    for us in shard:
+        reg = UnitRegistry(unit_system=us)
+        for name in ["km", "J", "N", "g/cm**3", "T", "mT", "A", "statA", "G", "C", "mC", "kV", "ohm", "degC", "hr"]:
+            for shape in ("array", "scalar"):
+                ctx.count("evaluations")
+                x = mk(vals_for(ctx.seed, 1), "float64", name, shape, registry=reg)
+                named = attempt(lambda: x.in_base(us))
+                routes = {
+                    "in_base()": attempt(lambda: x.in_base()),
+                    "convert_to_base()": attempt(lambda: (lambda y: (y.convert_to_base(), y)[1])(x.copy())),
+                    "convert_to_base(name)": attempt(lambda: (lambda y: (y.convert_to_base(us), y)[1])(x.copy())),
+                    "get_base_equivalent()": attempt(lambda: x.units.get_base_equivalent()),
+                }
+                for rname, r in routes.items():
+                    case = {"part": "registry-default-system", "system": us, "unit": name, "route": rname, "shape": shape}
+                    base = f"C03|registry-default-system|system={us}|unit={ukey(name)}|route={rname}"
+                    ctx.outcome(("regdefault", us, name, rname, r[0], named[0]))
+                    if (r[0] == "ok") != (named[0] == "ok"):
+                        ctx.violation(base + "|mode=disagrees-with-named-route-on-refusal", case, named[:1], r[:1])
+                        continue
+                    if r[0] != "ok":
+                        continue
+                    ctx.decided(("regdefault", us, name, rname, shape))
+                    ru = r[1] if rname.startswith("get_base") else r[1].units
+                    if ru != named[1].units or str(ru.expr) != str(named[1].units.expr):
+                        ctx.violation(base + "|mode=answers-in-another-unit-system", case, str(named[1].units), str(ru))
+                    elif not rname.startswith("get_base") and close(ctx, r[1], named[1], [x, named[1]], EPS["float64"]) is False:
+                        ctx.violation(base + "|mode=numbers-differ-from-named-route", case, str(named[1]), str(r[1]))
+
+
 def run(ctx):
+    harness.pmap(ctx, part_spellings, [[k] for k in SPELLINGS])
+    harness.pmap(ctx, part_registry_default_system, [["cgs"], ["imperial"], ["galactic"], ["mks"]])
     groups = default_groups(ctx.tier)
     shards = []
     for d, names in sorted(groups.items()):
@@ -371,7 +462,11 @@ def run(ctx):
 def replay(case):
     ctx = harness.Ctx(PROPERTY, "quick", 0)
     world.reset_world()
-    if case["part"] == "base":
+    if case["part"] == "spellings":
+        part_spellings(ctx, [case["src"]])
+    elif case["part"] == "registry-default-system":
+        part_registry_default_system(ctx, [case["system"]])
+    elif case["part"] == "base":
         part_base(ctx, [case["unit"]])
     else:
         registry = affine_registry()[0] if case["part"] == "affine" else None
